@@ -605,6 +605,33 @@ fn run_scenario(sc: &J) -> J {
             }
             continue;
         }
+        if kind == "exec" {
+            // the host calls a global function of the script through the embedding API (Vm::global + Vm::execute)
+            let name = p.get("name").and_then(|k| k.as_str()).unwrap_or("");
+            let args: Vec<Value> = p
+                .get("args")
+                .and_then(|a| a.as_array())
+                .map(|a| a.iter().map(|x| Value::Number(x.as_f64().unwrap_or(0.0))).collect())
+                .unwrap_or_default();
+            let r = panic::catch_unwind(panic::AssertUnwindSafe(|| match vm.global("main", name) {
+                Some(Value::ObjClosure(closure)) => Some(vm.execute(closure.function.as_root(), &args)),
+                _ => None,
+            }));
+            let events = SIM.with(|s| std::mem::take(&mut s.borrow_mut().events));
+            let outcome = match r {
+                Ok(Some(Ok(v))) => json!({"ok": true, "value": format!("{}", v)}),
+                Ok(Some(Err(e))) => json!({"err": format!("{:?}", e.kind()), "messages": e.messages()}),
+                Ok(None) => json!({"no_such_function": name}),
+                Err(p) => json!({"panic": panic_msg(p)}),
+            };
+            let stop = outcome.get("panic").is_some();
+            outs.push(json!({"events": events, "outcome": outcome}));
+            if stop {
+                std::mem::forget(vm);
+                return finish(sc, outs);
+            }
+            continue;
+        }
         let src = p
             .get("source")
             .and_then(|k| k.as_str())
